@@ -2,6 +2,7 @@
 counter-models."""
 import multiprocessing as mp
 import os
+import sys
 import time
 import traceback
 import z3
@@ -80,10 +81,93 @@ def discharge(ob, timeout_ms, use_cvc5=True):
     return verdict, backend, time.time() - t0, model, reason
 
 
-def verify_contract(contract, cfg, timeout_ms=None, max_paths=6000, case=None):
+def _nicer_model(ob, res, model):
+    """A second counter-model of the same obligation whose datetime arguments are ordinary values (1970-2096, whole-hour
+    offsets), so that the native driver can build them; the first model is kept when there is none."""
+    try:
+        K = res.ghost.get('K') if res is not None else None
+        if K is None:
+            return model
+        from .core import is_date, V as _V
+        prefs = []
+        for a in K.args:
+            t = K.ctx.to_term(a)
+            if not z3.is_expr(t) or t.sort() != _V:
+                continue
+            prefs.append(z3.Implies(is_date(t), z3.And(_V.us(t) >= 0, _V.us(t) <= 4 * 10**15, _V.off(t) % 3600000000 == 0,
+                                                       _V.off(t) >= -12 * 3600000000, _V.off(t) <= 12 * 3600000000)))
+        if not prefs:
+            return model
+        s = z3.Solver()
+        s.set('timeout', 3000)
+        for f in ob.pc:
+            s.add(f)
+        s.add(z3.Not(ob.goal))
+        s.add(*prefs)
+        import threading
+        timer = threading.Timer(5.0, s.ctx.interrupt)
+        timer.start()
+        try:
+            r = s.check()
+        finally:
+            timer.cancel()
+        if r == z3.sat:
+            return s.model()
+    except z3.Z3Exception:
+        pass
+    return model
+
+
+PAR_THRESHOLD = int(os.environ.get('PYVC_PAR_THRESHOLD', '400'))
+PAR_PROCS = int(os.environ.get('PYVC_PAR_PROCS', '8'))
+
+
+def _forked_entries(items, entry_for):
+    """Large obligation sets (one function case with hundreds of paths) are discharged by forked helpers, which inherit the
+    formulas and the path results; each helper builds the complete JSON-able report entries of its share (verdict, solver,
+    concretised counter-model inputs), so nothing solver-side has to cross the process boundary."""
+    if len(items) < PAR_THRESHOLD or PAR_PROCS < 2:
+        return {}
+    import json as _json
+    kids = []
+    for k in range(PAR_PROCS):
+        r, w = os.pipe()
+        pid = os.fork()
+        if pid == 0:
+            code = 0
+            try:
+                os.close(r)
+                out = {}
+                for ix in range(k, len(items), PAR_PROCS):
+                    out[ix] = entry_for(*items[ix])
+                with os.fdopen(w, 'w') as fh:
+                    _json.dump(out, fh, default=str)
+            except BaseException:
+                code = 1
+            finally:
+                os._exit(code)
+        os.close(w)
+        kids.append((pid, r))
+    res = {}
+    for pid, r in kids:
+        with os.fdopen(r, 'r') as fh:
+            data = fh.read()
+        os.waitpid(pid, 0)
+        if data:
+            try:
+                res.update({int(k): v for k, v in _json.loads(data).items()})
+            except Exception:
+                pass
+    return res
+
+
+def verify_contract(contract, cfg, timeout_ms=None, max_paths=None, case=None):
     """Returns a JSON-able report for one function under contract (or one case of its case split; case == 'coverage'
     checks that the split is exhaustive)."""
     timeout_ms = timeout_ms or Z3_TIMEOUT_MS
+    # path budget per function case: the largest case of the unchanged tree explores 230 paths in the quick tier; a function
+    # that needs more after a change is reported out of reach (bounded stand-ins take over) instead of running for hours
+    max_paths = max_paths or int(os.environ.get('PYVC_MAX_PATHS', '1500'))
     t0 = time.time()
     repo = Repo()
     models_calls.TRUSTED.clear()
@@ -114,10 +198,8 @@ def verify_contract(contract, cfg, timeout_ms=None, max_paths=6000, case=None):
         if r.bounded:
             report['bounded'] = True
         by_prefix[tuple(r.decisions)] = r
-    solver_s = 0.0
-    for key, ob in engine.obligations.items():
+    def entry_for(key, ob):
         verdict, backend, secs, model, reason = discharge(ob, timeout_ms)
-        solver_s += secs
         entry = {'name': ob.name, 'verdict': verdict, 'backend': backend, 'secs': round(secs, 4),
                  'kind': ob.meta.get('kind', ''), 'path': ''.join('T' if d else 'F' for d in key[0])}
         if verdict in ('sat', 'sat-weakened') and model is not None:
@@ -127,12 +209,24 @@ def verify_contract(contract, cfg, timeout_ms=None, max_paths=6000, case=None):
                 if dec[:len(key[0])] == key[0]:
                     res = r
                     break
+            if verdict == 'sat':
+                model = _nicer_model(ob, res, model)
             try:
                 entry['inputs'] = concretize_inputs(contract, model, res)
             except Exception as e:  # pragma: no cover
                 entry['inputs_error'] = f'{type(e).__name__}: {e}'
         if verdict not in ('unsat', 'sat'):
             entry['reason'] = reason
+        return entry
+
+    items = list(engine.obligations.items())
+    entries = _forked_entries(items, entry_for)
+    solver_s = 0.0
+    for ix, (key, ob) in enumerate(items):
+        entry = entries.get(ix)
+        if entry is None:
+            entry = entry_for(key, ob)
+        solver_s += entry['secs']
         report['obligations'].append(entry)
     report['solver_s'] = round(solver_s, 3)
     report['wall_s'] = round(time.time() - t0, 3)
@@ -213,9 +307,9 @@ def verify_many(contracts, cfg_factory, timeout_ms=None, workers=None, include_s
         if cases:
             jobs.append((c, cfg_factory, timeout_ms, 'coverage'))
             for ix in range(len(cases)):
-                if not include_slow and cases[ix][0] in getattr(c, 'slow_cases', ()):
+                if (not include_slow or not os.environ.get('PYVC_EXPERIMENTAL_CASES')) and cases[ix][0] in getattr(c, 'slow_cases', ()):
                     skipped.append({'function': c.qual, 'case': '#' + cases[ix][0], 'obligations': [], 'paths': 0,
-                                    'out_of_reach': 'case verified in the thorough tier only (path exploration takes tens of minutes)'})
+                                    'out_of_reach': 'case outside the registered tiers (not proved): ' + getattr(c, 'slow_reason', 'path exploration takes tens of minutes')})
                     continue
                 jobs.append((c, cfg_factory, timeout_ms, ix))
         else:
@@ -227,5 +321,64 @@ def verify_many(contracts, cfg_factory, timeout_ms=None, workers=None, include_s
     _SHARED['cfg_factory'] = cfg_factory
     ix_of = {id(c): i for i, c in enumerate(contracts)}
     ijobs = [(ix_of[id(c)], t, case) for c, _, t, case in jobs]
-    with mp.get_context('fork').Pool(workers) as pool:
-        return pool.map(_job_ix, ijobs, chunksize=1) + skipped
+    return _run_jobs(ijobs, workers) + skipped
+
+
+def _run_jobs(ijobs, workers):
+    """One forked child per job, at most `workers` at a time; results come back as JSON files. A child that dies on a signal
+    (z3 has been seen to crash in incremental string solving) is retried once; a second death is a checker error for that
+    function, never a verdict — and never a hang, which is what a process pool does when a worker disappears."""
+    import json
+    import shutil
+    import tempfile
+    os.makedirs(CACHE_DIR, exist_ok=True)
+    tmpdir = tempfile.mkdtemp(prefix='jobs-', dir=CACHE_DIR)
+    results = [None] * len(ijobs)
+    pending = list(range(len(ijobs)))
+    attempts = [0] * len(ijobs)
+    running = {}
+    try:
+        while pending or running:
+            while pending and len(running) < workers:
+                ix = pending.pop(0)
+                path = os.path.join(tmpdir, f'{ix}.json')
+                if os.path.exists(path):
+                    os.unlink(path)
+                sys.stdout.flush()
+                sys.stderr.flush()
+                pid = os.fork()
+                if pid == 0:
+                    code = 0
+                    try:
+                        rep = _job_ix(ijobs[ix])
+                        with open(path + '.tmp', 'w', encoding='utf-8') as fh:
+                            json.dump(rep, fh, default=str)
+                        os.replace(path + '.tmp', path)
+                    except BaseException:  # pylint: disable=broad-except
+                        traceback.print_exc()
+                        code = 1
+                    finally:
+                        os._exit(code)
+                running[pid] = ix
+            pid, status = os.wait()
+            if pid not in running:
+                continue
+            ix = running.pop(pid)
+            path = os.path.join(tmpdir, f'{ix}.json')
+            if os.WIFEXITED(status) and os.WEXITSTATUS(status) == 0 and os.path.exists(path):
+                with open(path, encoding='utf-8') as fh:
+                    results[ix] = json.load(fh)
+                continue
+            attempts[ix] += 1
+            if attempts[ix] < 2:
+                pending.insert(0, ix)
+                continue
+            cix, _t, case = ijobs[ix]
+            c = _SHARED['contracts'][cix]
+            label = '' if case is None else ('#' + (case if isinstance(case, str) else c.cases()[case][0]))
+            why = f'signal {os.WTERMSIG(status)}' if os.WIFSIGNALED(status) else f'exit status {os.WEXITSTATUS(status)}'
+            results[ix] = {'function': c.qual, 'case': label, 'obligations': [], 'paths': 0, 'out_of_reach': None, 'bounded': False,
+                           'path_kinds': {}, 'error': f'verification worker died twice ({why})'}
+    finally:
+        shutil.rmtree(tmpdir, ignore_errors=True)
+    return results
